@@ -64,6 +64,9 @@ UNSTABLE_SORTS = ['core::slice::<impl [T]>::sort_unstable', 'core::slice::<impl 
 # calls allowed inside a loop over a hash-ordered iterator: conversions and inserts into another unordered container
 LOOP_BODY_OK = {'next', 'into_iter', 'iter', 'as_str', 'as_bytes', 'from_bytes', 'from_str', 'unwrap', 'expect', 'clone',
                 'deref', 'deref_mut', 'into', 'from', 'to_string', 'as_ref', 'borrow', 'to_owned', 'branch', 'from_residual'}
+# pure lookups / comparisons a loop may make while it evaluates a quantified predicate over the items
+LOOP_LOOKUP_OK = {'get', 'contains_key', 'contains', 'eq', 'ne', 'is_some_and', 'is_none_or', 'is_some', 'is_none', 'is_ok', 'is_err', 'len', 'count', 'is_empty',
+                  'names', 'values', 'cmp', 'partial_cmp', 'map', 'as_deref', 'copied', 'cloned', 'last', 'first'}
 LOOP_BODY_INSERTS = re.compile(r'(HeaderMap|HashMap|HashSet|BTreeMap|BTreeSet|Headers)(::<[^>]*>)?::(append|insert|entry)$')
 
 
@@ -193,6 +196,7 @@ def loop_body(fn, next_bb):
     if body is None:
         return ('unclassified', 'loop not recognised', next_bb)
     inserts = 0
+    lookups = 0
     pushed = set()
     for b in sorted(body):
         t = fn.blocks[b]['t']
@@ -219,7 +223,25 @@ def loop_body(fn, next_bb):
             continue
         if any(m in ('format', 'format_args') for m in (t.get('x') or [])):
             continue  # building a string from one item
+        if name in LOOP_LOOKUP_OK:
+            lookups += 1
+            continue
         return ('unclassified', 'loop over hash-ordered items calls %s' % c, b)
+    if lookups and not pushed and not inserts:
+        # a quantified predicate (`for (k, v) in a { if b.get(k) != Some(v) { return false } }`): order-insensitive when the function
+        # returns bool and every value the loop can make it return is a constant
+        consts_only = fn.locals[0] == 'bool'
+        for b in sorted(body):
+            for st_ in fn.blocks[b]['st']:
+                if st_['k'] == 'assign' and st_['d']['l'] == 0 and not st_['d']['p']:
+                    if not (st_['rv']['k'] == 'use' and st_['rv']['a'].get('o') == 'const'):
+                        consts_only = False
+            t_ = fn.blocks[b]['t']
+            if t_['k'] == 'call' and t_['d']['l'] == 0 and not t_['d']['p']:
+                consts_only = False
+        if consts_only:
+            return ('ok', 'loop evaluates a quantified predicate over the items (lookups and comparisons only, constant results)', next_bb)
+        return ('unclassified', 'loop over hash-ordered items computes a non-constant result from lookups', next_bb)
     for v in pushed:
         if not sorted_after_loop(fn, v, body):
             return ('bad', 'loop pushes hash-ordered items into a Vec that is not stably sorted before it is used', next_bb)
